@@ -153,7 +153,11 @@ CHApplyO(ob, r, T) ==
       [] OTHER -> Q(ob, "")
 
 \* ======================= multi-leader ========================================
-MLSnapOK(st, snap) == \A i \in 1..st.n : st.ver[i] = snap[i]
+\* multi-leader store cells are sorted sequences of write ids (<<>> = absent; <<w>> = write w;
+\* longer = value built by a merging resolver); model versions are sets
+SeqSet(q) == { q[x] : x \in 1..Len(q) }
+MLCells(row) == [k \in 1..Len(row) |-> SeqSet(row[k])]
+MLSnapOK(st, snap) == \A i \in 1..st.n : st.ver[i] = MLCells(snap[i])
 
 MLApplyM(st, r) ==
     CASE r.e = "w" ->
@@ -165,7 +169,7 @@ MLApplyM(st, r) ==
            ELSE R(ML!MDeliver(st, r.n, r.w), IF st.wr[r.w].vc # r.vc THEN "MODEL:vector_clock" ELSE "")
       [] r.e = "pd" ->
            IF ~ML!CanMPutDone(st, r.n) \/ Head(st.q[r.n]).w # r.w THEN R(st, "MODEL:put_unexpected")
-           ELSE LET s1 == ML!MPutDone(st, r.n) IN R(s1, IF s1.ver[r.n] # r.st THEN "MODEL:leader_store" ELSE "")
+           ELSE LET s1 == ML!MPutDone(st, r.n) IN R(s1, IF s1.ver[r.n] # MLCells(r.st) THEN "MODEL:leader_store" ELSE "")
       [] r.e = "ack" -> R(st, IF r.w \notin st.acked THEN "MODEL:ack_instant" ELSE "")
       [] r.e = "ae" ->
            IF ~ML!CanMAE(st, r.n, r.x) THEN R(st, "MODEL:anti_entropy_while_busy")
@@ -207,7 +211,7 @@ RSApplyO(ob, r, T) ==
 \* ======================= stepping =============================================
 S0(T) == CASE T.proto = "pb" -> PB!PBInit(T.mode, T.n - 1, T.nk)
            [] T.proto = "chain" -> CH!CInit(T.n, T.nk, T.craq)
-           [] T.proto = "ml" -> ML!MInit(T.n, T.nk)
+           [] T.proto = "ml" -> ML!MInit(T.n, T.nk, T.mode)
            [] T.proto = "rs" -> QU!QInit(T.n, T.nk)
            [] OTHER -> [none |-> 0]
 O0(T) == CASE T.proto = "pb" -> PBO0(T)
